@@ -75,7 +75,10 @@ use crate::footprint::Footprint;
 use crate::tick_patch::WarpOp;
 #[cfg(any(debug_assertions, feature = "footprint_enforce_release"))]
 #[cfg(not(feature = "unsafe_graph"))]
+#[cfg(not(feature = "echo_verif_flat"))]
 use std::collections::BTreeSet;
+#[cfg(feature = "echo_verif_flat")]
+use crate::verif_flat::BTreeSet;
 
 // ─────────────────────────────────────────────────────────────────────────────
 // Violation types (public: integration tests + future sandboxes need these)
